@@ -14,7 +14,7 @@ from tornado.netutil import SSLCertificateError
 from typing import Optional, Union
 from wpull.backport.logging import BraceMessage as __
 from wpull.errors import NetworkError, ConnectionRefused, SSLVerificationError, \
-    NetworkTimedOut
+    NetworkTimedOut, ProtocolError
 
 _logger = logging.getLogger(__name__)
 
@@ -265,11 +265,18 @@ class BaseConnection(object):
             'Expect conn created. Got {}.'.format(self._state)
 
         with self._close_timer.with_timeout():
-            data = yield from \
-                self.run_network_operation(
-                    self.reader.readline(),
-                    close_timeout=self._timeout,
-                    name='Readline')
+            try:
+                data = yield from \
+                    self.run_network_operation(
+                        self.reader.readline(),
+                        close_timeout=self._timeout,
+                        name='Readline')
+            except ProtocolError:
+                raise
+            except ValueError as error:
+                # The line is longer than the stream reader's buffer limit
+                raise ProtocolError(
+                    'Line too long: {error}'.format(error=error)) from error
 
         return data
 
